@@ -14,6 +14,14 @@ if len(sys.argv) > 2 and sys.argv[2] == 'wide':
               'set iteration) that only matter for particular shapes, aliasing of mutable arguments or defaults, equality vs identity, '
               'bool-vs-int or str-vs-enum confusions, changed error classes or checks moved after a mutation, default arguments, '
               'and interactions between two public features that are each fine alone.\n')
+if len(sys.argv) > 2 and sys.argv[2] == 'clauses':
+    extra = ('\nOther testers have already covered the obvious targets of this property many times (stale caches, iterators consumed '
+             'twice, off-by-one in the most visible function). Work differently: first split the property statement and its quantifier '
+             'into their individual clauses and list, for each clause, the functions and branches of the code that implement it (follow '
+             'callers and helpers beyond the anchor files where needed). Then choose the TWO clauses that a typical test or a random '
+             'generator of ordinary inputs is LEAST likely to exercise (rarely used entry points named in the quantifier, unusual but '
+             'legal argument shapes, configurations off the default, interactions of two features), and break each of them in a way '
+             'that leaves every other clause intact. The two changes must be in different functions and of different nature.\n')
 prop = next(json.loads(l) for l in open('/verif/properties.jsonl') if json.loads(l)['id'] == p)
 os.makedirs('/tmp/wt', exist_ok=True)
 wt = f'/tmp/wt/{p}'
